@@ -1,5 +1,5 @@
 Require Extraction.
 Require Import ExtrOcamlBasic.
-From SCMO Require Import Lib.Val Model.C01.
+From SCMO Require Import Lib.Val Model.C01x.
 Definition run := run_C01.
 Extraction "c01_model.ml" run.
